@@ -2,6 +2,7 @@
 From Coq Require Import List ZArith Bool Reals Lra Lia.
 From RV Require Import Common.Num Common.RealNum C02.Model C02.Sums C02.Loops C02.Spec C02.Basic C02.Momentum C02.Merc C02.Comp C02.Torque C02.Jacobi C02.Lfun C02.WHJac C02.SubMap C02.TreeModel C02.TreeWalk.
 From RV Require C15.Tree.
+From RV Require Gen.GravPrologue C02.Prologue.
 From RV Require C04.Model C04.Proofs.
 Import ListNotations.
 Open Scope R_scope.
@@ -236,6 +237,16 @@ Theorem C02_L_infinity_exp : forall d dc, let y := L_arg RNum d dc in
   (forall e1 e2, (y < 0 -> L_infinity RNum e1 e2 d dc = 0) /\ (1 < y -> L_infinity RNum e1 e2 d dc = 1)).
 Proof. intros d dc y. split; [apply L_infinity_exp_range|intros; apply L_infinity_outside]. Qed.
 Print Assumptions C02_L_infinity_exp.
+
+(* The prologue of reb_calculate_acceleration (regenerated from gravity.c by tools/translate_gravprologue.py on every run):
+   for every gravity value and every integrator value of rebound.h, the routine the switch dispatches on is r->gravity AFTER
+   the MERCURIUS-fallback rule, and r->gravity holds that same value at the switch: the routine whose model is proved above is
+   the one selected by the post-rule field (no stale copy of the selector). *)
+Theorem C02_dispatch_is_post_rule : forall integ g,
+  In integ Gen.GravPrologue.integrator_values -> In g Gen.GravPrologue.gravity_values ->
+  C02.Prologue.dispatched integ g = Some (C02.Prologue.rule integ g, C02.Prologue.rule integ g).
+Proof. exact C02.Prologue.dispatch_is_post_rule_all. Qed.
+Print Assumptions C02_dispatch_is_post_rule.
 
 (* Non-vacuity: a 4-body system with a zero-mass body, N_active = 2, ignore_terms = 1 meets the hypotheses,
    and the specified sum for the test particle 3 is not trivially zero. *)
